@@ -52,7 +52,8 @@ func RandID(r *rand.Rand, hostile bool) string {
 
 // RandDef draws a definition: empty, plain words, hostile characters, or a simple JSON map.
 func RandDef(r *rand.Rand, kind int) string {
-	words := []string{"Homo", "sapiens", "16S", "rRNA", "partial", "sequence", "x>y", "a@b", "p+q", "{brace", "k=v;", "count=3"}
+	// hostile words include '>' '@' '+' at the START of a word, i.e. preceded by a blank on the title line
+	words := []string{"Homo", "sapiens", "16S", "rRNA", "partial", "sequence", "x>y", "a@b", "p+q", "{brace", "k=v;", "count=3", ">10", "@home", "+1", ">", "@", "+"}
 	switch kind {
 	case 0:
 		return ""
